@@ -141,7 +141,7 @@ pub fn main(args: &Args) -> i32 {
         "C19",
         &args.tier,
         args.seed,
-        "proptest attribute soup: enum with 0-4 enum-level attributes and 1-4 variants (unit, one-field, empty-tuple, multi-field, named) carrying 0-3 attributes drawn from pools of well-formed and malformed/duplicated #[logos]/#[token]/#[regex]/#[error] forms, generics incl. const; 35% carry a constructively generated must-reject item (empty match, start look-behind, Unicode \\b, greedy dot without allow_greedy, undefined subpattern, named/empty/multi-field variant, const generic); oracle: no panic (catch_unwind), output parses as Rust, must-reject => compile_error present, accepted => graph error-free with a root that records nothing; non-trivial = distinct inputs with a malformed/duplicated attribute or a must-reject item; second generator: the definition families of the other checks (core, subpattern incl. planted bad references, literal, conflict) judged for panic-freedom and soundness of accepted definitions (non-trivial there = definitions with subpatterns or non-ASCII text)",
+        "proptest attribute soup: enum with 0-4 enum-level attributes and 1-4 variants (unit, one-field, empty-tuple, multi-field, named) carrying 0-3 attributes drawn from pools of well-formed and malformed/duplicated #[logos]/#[token]/#[regex]/#[error] forms, generics incl. const; 35% carry a constructively generated must-reject item (empty match, start look-behind, Unicode \\b, greedy dot without allow_greedy, undefined subpattern, named/empty/multi-field variant, const generic); oracle: no panic (catch_unwind), output parses as Rust, must-reject => compile_error present, accepted => graph error-free with a root that records nothing; non-trivial = distinct inputs with a malformed/duplicated attribute or a must-reject item; second generator: the definition families of the other checks (core, subpattern incl. planted bad references, literal, conflict) judged for panic-freedom and soundness of accepted definitions (non-trivial there = definitions with subpatterns or non-ASCII text); third generator: a few patterns with nested counted repetitions whose counts multiply beyond usize (no panic)",
     );
     run.assumptions = vec!["library entry point (proc_macro2 fallback spans); the real proc-macro on stable is exercised by tier P".into()];
     if let Some(path) = &args.replay {
@@ -181,6 +181,7 @@ pub fn main(args: &Args) -> i32 {
         }
     };
     let code = if code == 0 { family_part(args, &mut run) } else { code };
+    let code = if code == 0 { counts_part(args, &mut run) } else { code };
     run.write_evidence(&args.evidence);
     code
 }
@@ -189,6 +190,53 @@ pub fn main(args: &Args) -> i32 {
 /// references, literals, conflicts). Those checks skip a case when the derive panics (a panic is C19's clause);
 /// here the same inputs are judged for exactly that: no panic, and an accepted definition has a sound graph and
 /// output that parses.
+/// Third generator: nested counted repetitions whose counts multiply beyond usize (the default priority is a product of
+/// the minimum counts). Oracle: no panic; whether the derive accepts or rejects such a pattern is not prescribed. Few cases:
+/// a rejection by size limit costs seconds. Counts are chosen so that the product of the minimum counts exceeds 2^64: an
+/// implementation without overflow handling fails at once instead of expanding the pattern.
+fn counts_part(args: &Args, run: &mut Run) -> i32 {
+    let count = select(vec!["65536", "100000", "4294967295", "65536,", "100000,200000"]);
+    let atom = select(vec!["a", "[a-c]", "ab", "[a-z]"]);
+    let strat = (atom, proptest::collection::vec(count, 4..=5), any::<bool>(), prop::option::weighted(0.5, 0usize..50)).prop_map(|(atom, counts, skip, prio)| {
+        let mut pat = atom.to_string();
+        for c in counts {
+            pat = format!("({pat}{{{c}}})");
+        }
+        let prio = prio.map(|p| format!(", priority = {p}")).unwrap_or_default();
+        if skip {
+            format!("#[derive(Logos)]\n#[logos(skip(\"{pat}\"{prio}))]\nenum T {{\n    #[token(\"q\")]\n    Q,\n}}\n")
+        } else {
+            format!("#[derive(Logos)]\nenum T {{\n    #[regex(\"{pat}\"{prio})]\n    A,\n    #[token(\"q\")]\n    Q,\n}}\n")
+        }
+    });
+    let cases = if args.cases > 0 { args.cases.min(40) } else if args.thorough() { 40 } else { 2 };
+    run.frozen = false;
+    let check = |src: &String, run: &mut Run| -> Result<(), String> {
+        run.eval(1);
+        let d = derive_rust(src.clone());
+        run.nontrivial(fnv(src.as_bytes()));
+        run.count(if d.panic.is_some() { "counts_panicked" } else if d.errors.is_empty() { "counts_accepted" } else { "counts_rejected" }, 1);
+        match &d.panic {
+            Some(p) => Err(format!("derive panicked: {p}")),
+            None => Ok(()),
+        }
+    };
+    match drive(&strat.boxed(), cases, args.seed ^ 0xC19C, 50, run, |s, run| check(s, run)) {
+        DriveResult::Pass => 0,
+        DriveResult::Fail(src) => {
+            let d = derive_rust(src.clone());
+            let msg = d.panic.map(|p| format!("derive panicked: {p}")).unwrap_or_default();
+            run.violations = 1;
+            report_violation("C19", &args.replay_dir, &json!({"property": "C19", "tier": "G", "source": src, "must_reject": null, "fragments_ok": true, "findings": [{"property": "C19", "what": msg}]}));
+            1
+        }
+        DriveResult::Abort(m) => {
+            eprintln!("aborted: {m}");
+            2
+        }
+    }
+}
+
 fn family_part(args: &Args, run: &mut Run) -> i32 {
     use model::gen::{callback_defs, conflict_defs, lexing_defs, literal_defs, pair_defs, subpattern_defs};
     let strat = prop_oneof![
